@@ -493,6 +493,11 @@ class SQLTranspiler(StructureVisitor, ASTTemplate):
         if udo_val is not None:
             return self._resolve_udo_param(name, udo_val)
 
+        # Inside a datapoint rule the signature maps rule variables (aliases) to
+        # the components of the validated dataset.
+        if self._dp_signature is not None and name in self._dp_signature:
+            return quote_name(self._dp_signature[name])
+
         if name in self.scalars:
             if name in self.input_scalars:
                 return self._scalar_literal(name)
